@@ -132,6 +132,14 @@ def run(chk):
         chk.note("cat_" + c["cat"])
         for dt in R.dtypes_for(c):
             oracle(chk, c, dt, found)
+    # the projection at the ends of the dtype's range (scale-free by definition: J J^T / s^2)
+    n_ext = 0
+    for c in kept:
+        if len(c["J"]) >= 2 and c["cat"].split("+")[0] in ("conflict", "antiparallel", "generic", "dup_rows") \
+                and not any(k[0] == c["name"] for k in found) and n_ext < (6 if chk.tier == "quick" else 60):
+            n_ext += 1
+            R.extreme_scales(chk, found, c, {"f64": 1e-6, "f32": 5e-3}, "C03", dts=R.dtypes_for(c))
+    chk.notes["extreme_scale_cases"] = n_ext
     R.report_corr(chk, dis, found)
     chk.cov["rule"] = ("random integer*2^k matrices (categories in notes), UPGrad/DualProj with "
                        "random pref vectors and norm_eps != reg_eps, 30% rescaled so sigma_max "
@@ -146,6 +154,8 @@ def replay(chk, obj):
     c = {"name": obj["aggregator"], "params": A.unjson(obj["params"]), "J": A.unjson(obj["J"]),
          "cat": obj.get("cat", "")}
     found = set()
+    if obj.get("kind") == "extreme_scale":
+        return R.extreme_scales(chk, found, c, {"f64": 1e-6, "f32": 5e-3}, "C03", dts=(obj.get("dtype", "f64"),))
     for dt in ([obj["dtype"]] if obj.get("dtype") else ["f64", "f32"]):
         oracle(chk, c, dt, found)
         print(dt, "impl:", A.impl_call(c["name"], c["params"], c["J"], dt)[:2])
